@@ -287,6 +287,12 @@ def write_evidence(prop, tier, seed, results, nat, n_ob, n_dis, n_viol, wall, kn
             samples.append(dict(function=r['name'], obligation=v['name'], status=v['status'],
                                 backend=v['backend'], seconds=v['time'], path=v['path']))
     level = 'proof'
+    try:
+        sys.path.insert(0, VERIF)
+        import manifest_src
+        level = manifest_src.CHECKS.get(prop, {}).get('category', 'proof')
+    except Exception:
+        pass
     cov = dict(obligations=n_ob, discharged=n_dis,
                checker_cmd=f'bin/check {prop} --tier {tier}',
                trusted_base=TRUSTED, functions_under_contract=funcs,
@@ -296,6 +302,7 @@ def write_evidence(prop, tier, seed, results, nat, n_ob, n_dis, n_viol, wall, kn
                distinct_nontrivial=max(0, nat.get('distinct_nontrivial', 0)),
                rule=nat.get('rule', ''), bounded=nat.get('bounded', []),
                native_samples=nat.get('samples', [])[:10],
+               samples_native=nat.get('samples', [])[:10],
                known_findings_reproduced=sorted({k['id'] for k in known_hits}),
                obligations_refuted_as_listed_known_findings=n_known_ob,
                explanation='contract-based deductive verification: VCs generated from the real '
